@@ -82,6 +82,9 @@ impl SymbolSupplier for GatedSupplier {
             let mut pk = self.per_key.lock().unwrap();
             let e = pk.entry(fk.clone()).or_insert((0, 0, 0));
             e.0 += 1;
+            if e.0 > 10_000 {
+                simkit::runner::trip("c03.supplier_spin", "the symbol supplier was asked more than 10 000 times for one module (a retry loop that does not end)");
+            }
             e.1 += 1;
             e.2 = e.2.max(e.1);
         }
@@ -98,7 +101,10 @@ impl SymbolSupplier for GatedSupplier {
         for m in self.modules.iter() {
             if m.code_file == cf && (want_id.is_none() || !m.has_cv || want_id.as_deref() == Some(&m.breakpad_id())) {
                 if m.sym_kind == "load error" {
-                    return Err(SymbolError::LoadError(std::io::Error::other("simulated read failure")));
+                    // the kind of I/O error is a property of the module (the same every time it is asked)
+                    use std::io::ErrorKind as K;
+                    let kind = [K::Other, K::Interrupted, K::NotFound, K::PermissionDenied, K::TimedOut, K::UnexpectedEof, K::WouldBlock][(crate::common::fnv(cf.as_bytes()) % 7) as usize];
+                    return Err(SymbolError::LoadError(std::io::Error::new(kind, "simulated read failure")));
                 }
                 return match &m.sym {
                     Some(bytes) => Ok(LocateSymbolsResult {
@@ -361,6 +367,14 @@ pub fn execute(shared: Shared, mode: ExecMode, stack_budget: u64, nthreads: u64)
                 }
                 if !on_server(rel, second) {
                     return Plan::status(404);
+                }
+                // some objects are served through a redirect to their storage location (a property
+                // of the world: the same in every execution)
+                if info.url == info.origin_url && crate::common::fnv(rel.as_bytes()) % 5 == 1 {
+                    probe("e4.object_redirect");
+                    let mut plan = Plan::redirect(302, &format!("/store/{enc}?sig=5eed"));
+                    plan.head_delay = draw_delay("e4.http.head_delay");
+                    return plan;
                 }
                 let Some(body) = &m.sym else { return Plan::status(404) };
                 let mut plan = Plan::ok(body.clone());
